@@ -1017,6 +1017,9 @@ class HistogramBase(abc.ABC):
             scalar = cast(float, other)
             if isinstance(scalar, np.integer):
                 scalar = int(scalar)  # scalar**2 must not wrap in a narrow type
+            if not config.free_arithmetics and scalar < 0:
+                # Also when all bins are empty: the missed counts would become negative
+                raise ValueError("Cannot multiply by a negative number (negative frequencies).")
             try:
                 self._coerce_dtype(array.dtype)
             except ValueError as v:
@@ -1050,6 +1053,8 @@ class HistogramBase(abc.ABC):
         if isinstance(other, HistogramBase):
             raise TypeError("Division of two histograms is not supported.")
         elif np.isscalar(other):
+            if not config.free_arithmetics and other < 0:
+                raise ValueError("Cannot divide by a negative number (negative frequencies).")
             self._coerce_dtype(np.promote_types(np.float64, np.asarray(other).dtype))
             if isinstance(other, np.integer):
                 other = int(other)  # other**2 must not wrap in a narrow type
